@@ -724,6 +724,29 @@ type wrapErr struct{ inner error }
 func (w *wrapErr) Error() string { return "wrapped: " + w.inner.Error() }
 func (w *wrapErr) Unwrap() error { return w.inner }
 
+// values whose own marshalling method fails or panics: "not encodable" like a channel (C19: Error() never panics)
+type errMarshal struct{}
+
+func (errMarshal) MarshalJSON() ([]byte, error) { return nil, errors.New("no json for this value") }
+
+type panicMarshal struct{ N int }
+
+func (panicMarshal) MarshalJSON() ([]byte, error) { panic("MarshalJSON panics") }
+
+type panicTextM struct{}
+
+func (panicTextM) MarshalText() ([]byte, error) { panic("MarshalText panics") }
+
+// safeMarshal: json.Marshal that reports a panicking marshalling method as an error
+func safeMarshal(v interface{}) (b []byte, err error) {
+	defer func() {
+		if r := recover(); r != nil {
+			b, err = nil, errors.New("marshalling method panicked")
+		}
+	}()
+	return json.Marshal(v)
+}
+
 func checkC19(c *Ctx) {
 	c.Res.Rule = "operation sequences on the exported NestedError API: a cause (errors.New, a %w-wrapping error, a custom Unwrap error) wrapped in 1-6 layers, Set with 0-4 key/value pairs per call (keys incl. err and msg; values encodable: ints, floats, strings with quotes/angle brackets/control characters, nested maps, slices, nil; not encodable: channels, funcs, NaN, +Inf, complex) before and after Error(), Error() and Original() repeated; texts compared with the Lean model byte for byte; non-trivial = distinct sequence with >= 2 layers and a Set"
 	n := c.budget(10000, 450000)
@@ -737,7 +760,9 @@ func checkC19(c *Ctx) {
 		func() interface{} { return map[string]interface{}{"path": "a.b", "type": "string"} }, func() interface{} { return map[string]interface{}{"path": "a.c"} },
 		func() interface{} { return parser.ErrVals{"path": "z", "n": 1} }, func() interface{} { return parser.ErrVals{"other": true} },
 		func() interface{} { return map[string]interface{}{"m": map[string]interface{}{"x": 1}} }, func() interface{} { return map[string]interface{}{"m": map[string]interface{}{"y": 2}} },
-		func() interface{} { return map[string]interface{}{} }}
+		func() interface{} { return map[string]interface{}{} },
+		func() interface{} { return errMarshal{} }, func() interface{} { return panicMarshal{1} }, func() interface{} { return []interface{}{1, panicMarshal{2}} },
+		func() interface{} { return map[string]interface{}{"in": panicTextM{}} }, func() interface{} { return &panicMarshal{3} }}
 	for i := 0; i < n && !c.full(); i++ {
 		var fields, hist, got []string
 		text := pick(c.R, msgPool) + strconv.Itoa(c.R.Intn(10))
@@ -779,7 +804,7 @@ func checkC19(c *Ctx) {
 					}
 					vals[key] = v
 					enc := "U"
-					if b, err := json.Marshal(v); err == nil {
+					if b, err := safeMarshal(v); err == nil {
 						enc = "E" + hx(string(b))
 					}
 					kv = append(kv, hx(key)+" "+enc)
